@@ -615,6 +615,29 @@ def repro_unexpected(hist):
     return body
 
 
+def repro_watch(hist, name, expect):
+    """script that fails iff the object bound to `name` along the history is not in the state `expect` (canonical) at the end"""
+    body = PRELUDE
+    for h in hist:
+        body += 'try:\n' + ''.join('    ' + ln + '\n' for ln in h.splitlines()) + 'except (ValueError, TypeError, KeyError) as e: print("raised", repr(e))\n'
+    body += SHOW_SRC
+    body += (f'expected = {expect!r}\nprint("watched ", state({name}))\nprint("expected", expected)\n'
+             f'assert state({name}) == expected, "a model was changed by operations performed on another model object"\n')
+    return body
+
+
+def check_watched(ctx, orig, hist):
+    """`orig` = (object, state, name in the repro script, canonical state, site, input class): it must still be in that state"""
+    if orig is None or state(orig[0]) == orig[1]:
+        return True
+    name = orig[2] if len(orig) > 2 else None
+    ctx.fail('property', orig[4] if name else 'CQM.__deepcopy__', orig[5] if name else 'original changed',
+             ('a model and the copy returned for it are not independent: operations on one changed the other' if name else
+              'mutating a deep copy changed the model it was copied from'),
+             repro=repro_watch(hist, name, orig[3]) if name else None, detail=dict(history=list(hist), original=orig[1], now=state(orig[0])))
+    return False
+
+
 SHOW_SRC = '''
 from fractions import Fraction
 import numpy as _np
@@ -643,7 +666,7 @@ def state(cqm):
 OPS = (['addvar'] * 3 + ['objm'] * 2 + ['objt'] + ['conm'] * 4 + ['conc'] * 2 + ['cont'] * 2 + ['discm', 'discc', 'discv', 'discv']
        + ['rmvar'] * 3 + ['fix'] * 3 + ['fixmany', 'fixcopy', 'fixcopy'] + ['flip'] * 2 + ['cvt'] * 2 + ['s2b'] + ['rmcon'] * 2
        + ['relv'] * 2 + ['relc'] + ['setb'] + ['vaddl', 'vsetl', 'vaddq', 'vaddq', 'vrmi', 'vrmv', 'voff', 'vmark', 'vweight']
-       + ['deepcopy'] + ['bad'] * 3)
+       + ['deepcopy'] + ['cpapi'] * 3 + ['bad'] * 3)
 
 
 def classify(k, line, ref, args):
@@ -653,7 +676,7 @@ def classify(k, line, ref, args):
             'discv': 'CQM.add_discrete', 'rmvar': 'CQM.remove_variable', 'fix': 'CQM.fix_variable', 'fixmany': 'CQM.fix_variables',
             'fixcopy': 'CQM.fix_variables', 'flip': 'CQM.flip_variable', 'cvt': 'CQM.change_vartype', 's2b': 'CQM.spin_to_binary',
             'rmcon': 'CQM.remove_constraint', 'relv': 'CQM.relabel_variables', 'relc': 'CQM.relabel_constraints',
-            'setb': 'CQM.set_bound', 'deepcopy': 'CQM.__deepcopy__'}.get(k, 'CQM expression view')
+            'setb': 'CQM.set_bound', 'deepcopy': 'CQM.__deepcopy__', 'cpapi': 'CQM copy-returning call'}.get(k, 'CQM expression view')
     return site
 
 
@@ -667,7 +690,8 @@ def one_history(ctx, r, nops, out):
     out.append(dict(line='new', expect='ok ' + state(cqm), k='new', hist=()))
     ncon = [0]
     views = {}       # id(RCon) -> (view object, RCon)
-    orig = None      # (object, state string) of a model that was deep-copied and must stay as it was
+    orig = None      # (object, state string, …) of a model that was copied / is a copy and must stay as it was (`check_watched`)
+    nw = [0]
 
     def newlabel():
         ncon[0] += 1
@@ -909,14 +933,91 @@ def one_history(ctx, r, nops, out):
                 ctx.fail('property', 'CQM.__deepcopy__', 'copy differs', f'deep copy differs from the original: {state(new)} vs {before}',
                          repro=repro_of(hist, ref.show(canon=True), 'deep copy differs'), detail=dict(history=list(hist)))
                 return
-            if orig is not None and state(orig[0]) != orig[1]:
-                ctx.fail('property', 'CQM.__deepcopy__', 'original changed', 'mutating a deep copy changed the model it was copied from',
-                         repro=None, detail=dict(history=list(hist), original=orig[1], now=state(orig[0])))
+            if not check_watched(ctx, orig, hist[:-1]):
                 return
-            orig = (cqm, before)
+            nw[0] += 1
+            hist[-1] = f'_w{nw[0]} = cqm; cqm = copy.deepcopy(cqm)'
+            orig = (cqm, before, f'_w{nw[0]}', state(cqm, canon=True), 'CQM.__deepcopy__', 'original changed')
             cqm = new
             views = {}
             ctx.case(('deepcopy', before), nontrivial=True)
+            continue
+        elif k == 'cpapi':
+            # every call documented to RETURN A COPY (relabel_variables / spin_to_binary / fix_variables with inplace=False),
+            # with trivial arguments too (empty / identity mapping, nothing to convert, nothing to fix): the result must be the
+            # specification's, the model itself untouched, and the two objects independent under the REST OF THE HISTORY —
+            # either the history goes on on the copy and the original is watched, or it goes on on the original and the copy is watched
+            sub = r.choice(['relv-empty', 'relv-empty', 'relv-identity', 'relv-new', 'relv-swap', 's2b', 's2b-default', 'fix-empty', 'fix'])
+            before = state(cqm)
+            ref2 = ref.copy(); dline = None
+            try:
+                if sub.startswith('relv'):
+                    if sub == 'relv-empty' or not vs:
+                        mp = {}; sub = 'relv-empty'
+                    elif sub == 'relv-identity':
+                        mp = {v: v for v in r.sample(vs, r.randint(1, len(vs)))}
+                    elif sub == 'relv-new':
+                        fresh = [x for x in NEWLABS if x not in ref.vars]
+                        ks = r.sample(vs, min(len(vs), len(fresh), r.randint(1, 2)))
+                        mp = dict(zip(ks, r.sample(fresh, len(ks))))
+                    else:
+                        ks = r.sample(vs, min(len(vs), r.choice([2, 2, 3])))
+                        mp = {ks[i]: ks[(i + 1) % len(ks)] for i in range(len(ks))}
+                    call = f'cqm.relabel_variables({mp!r}, inplace=False)'
+                    ref2.relabel_variables(mp)
+                    dline = 'relv ' + (','.join(f'{lab(a)}={lab(b)}' for a, b in mp.items()) or '-')
+                    site = 'CQM.relabel_variables'
+                    icls = 'inplace=False, ' + {'relv-empty': 'empty mapping', 'relv-identity': 'identity mapping'}.get(sub, 'mapping')
+                elif sub.startswith('s2b'):
+                    call = 'cqm.spin_to_binary(inplace=False)' if sub == 's2b' else 'cqm.spin_to_binary()'
+                    nspin = 0
+                    for v in list(ref2.vars):
+                        if ref2.vars[v][0] == 'SPIN':
+                            ref2.change_vartype('BINARY', v); nspin += 1
+                    dline = 's2b'
+                    site = 'CQM.spin_to_binary'
+                    icls = 'inplace=False' + ('' if nspin else ', no SPIN variable')
+                else:
+                    fx = [] if sub == 'fix-empty' else [(v, r.choice([-1, 0, 1, 2])) for v in r.sample(vs, r.randint(0, min(2, len(vs))))]
+                    arg = dict(fx) if r.random() < .5 else fx
+                    call = f'cqm.fix_variables({arg!r}, inplace=False)'
+                    ref2 = ref.fix_copy(fx)
+                    site = 'CQM.fix_variables'
+                    icls = 'inplace=False' + ('' if fx else ', nothing to fix')
+            except Bad:
+                continue
+            nw[0] += 1
+            name = f'_w{nw[0]}'
+            try:
+                new = eval(call, dict(cqm=cqm))
+            except (ValueError, TypeError, KeyError, IndexError, RuntimeError):
+                continue          # what raises is examined by the in-place forms of these calls
+            ctx.tick(f'copy-returning call: {sub}')
+            if not check_watched(ctx, orig, hist):
+                return
+            if new is cqm:
+                ctx.fail('property', site, icls, f'`{call}` returned the model itself, not a copy: whatever is done to the result is done to the model',
+                         repro=repro_unexpected(hist) + f'new = {call}\nnew.add_variable("BINARY", "__probe__")\n'
+                         'assert "__probe__" not in cqm.variables, "the model changed when the returned copy was changed"\n',
+                         detail=dict(history=list(hist), call=call))
+                return
+            if state(new, canon=True) != ref2.show(canon=True) or state(cqm) != before:
+                ctx.fail('property', site, icls + ': result', f'`{call}`: the returned model is not what the call gives on a list of polynomials, or the model itself changed',
+                         repro=repro_unexpected(hist) + SHOW_SRC + f'_b = state(cqm)\nnew = {call}\nprint(state(new))\n'
+                         f'assert state(cqm) == _b, "the model itself changed"\nassert state(new) == {ref2.show(canon=True)!r}\n',
+                         detail=dict(history=list(hist), call=call, impl=state(new, canon=True), spec=ref2.show(canon=True)))
+                return
+            ctx.case(('cpapi', call, before), nontrivial=True)
+            if dline is not None and r.random() < .6:
+                # the history continues on the copy; the original is watched
+                hist.append(f'{name} = cqm; cqm = {call}')
+                orig = (cqm, before, name, state(cqm, canon=True), site, icls + ': original changed through the copy')
+                cqm = new; ref = ref2; views = {}
+                out.append(dict(line=dline, expect='ok ' + state(cqm), k=dline.split()[0], hist=tuple(hist)))
+            else:
+                # the history continues on the original; the copy is watched
+                hist.append(f'{name} = {call}')
+                orig = (new, state(new), name, state(new, canon=True), site, icls + ': copy changed through the original')
             continue
         elif k == 'bad':
             # malformed calls whose effect on raise is examined separately
@@ -1036,9 +1137,7 @@ def one_history(ctx, r, nops, out):
         if ref.cons and r.random() < .3:
             l = r.choice(list(ref.cons))
             views[ref.cons[l].uid] = (cqm.constraints[l].lhs, None)
-    if orig is not None and state(orig[0]) != orig[1]:
-        ctx.fail('property', 'CQM.__deepcopy__', 'original changed', 'mutating a deep copy changed the model it was copied from',
-                 repro=None, detail=dict(history=list(hist), original=orig[1], now=state(orig[0])))
+    check_watched(ctx, orig, hist)
 
 
 def run(ctx):
